@@ -46,6 +46,67 @@ def clone_copy_table(prog: Program) -> Dict[str, set]:
     return out
 
 
+def _reflective_chain(prog: Program, kind: str) -> bool:
+    for c in prog.mro(prog.cls(kind)):
+        m = c.methods.get("clone")
+        if m is None:
+            continue
+        for n in ast.walk(m.node):
+            if isinstance(n, ast.Call):
+                fn = n.func
+                name = fn.id if isinstance(fn, ast.Name) else (fn.attr if isinstance(fn, ast.Attribute) else "")
+                if name in ("setattr", "vars", "copy", "deepcopy", "update", "__setattr__"):
+                    return True
+            if isinstance(n, ast.Attribute) and n.attr == "__dict__":
+                return True
+    return False
+
+
+def _semantic_copied(prog: Program, kind: str) -> set:
+    """Payload attributes that equal the original's on the result of the interpreted clone() of `kind`, on every path
+    (children's clones are stand-in nodes)."""
+    from .absint import explore
+    m = prog.find_method(kind, "clone")
+    if m is None:
+        return set()
+    quals = [f"{c.name}.clone" for c in prog.classes.values() if "clone" in c.methods]
+
+    def body(it: Interp):
+        node = it.new_summary(frozenset([kind]), "arg")
+        it.arg = node
+
+        def h(it2, info, args, kwargs):
+            if isinstance(args[0], Node) and args[0].cid == node.cid:
+                return NotImplemented
+            c = it2.new_cell(it2.kinds_of(it2.cell(args[0])), True, "alloc")
+            c.cur["parent"] = None
+            return Node(c.cid)
+        h.total = False
+        for q in quals:
+            it.hooks[q] = h
+        return it.call_function(m, [node], {})
+    copied = None
+    try:
+        for p in explore(prog, body, {"max_updepth": 0}, max_paths=400):
+            if p.outcome != "return" or not isinstance(p.value, Node):
+                continue
+            it = p.interp
+            oc, rc = it.cells[it.arg.cid], it.cells[p.value.cid]
+            here = set()
+            for f in ("id", "value", "identifier", "child_on_left", "classes"):
+                if f in rc.cur:
+                    ov = oc.entry.get(f, oc.cur.get(f, _MISSING))
+                    rv = rc.cur[f]
+                    same = rv is ov or rv == ov or (isinstance(ov, Num) and isinstance(rv, Num) and ov.term == rv.term) or \
+                        (isinstance(ov, Ident) and isinstance(rv, Ident) and ov.name == rv.name)
+                    if same or f not in oc.entry:
+                        here.add(f)
+            copied = here if copied is None else (copied & here)
+    except Exception:  # noqa: BLE001 - an uninterpretable chain leaves the syntactic table as it is
+        return set()
+    return copied or set()
+
+
 class _Total:
     """A hook that handles every call it receives for node receivers (safe for virtual dispatch without
     splitting the receiver's kind set)."""
@@ -69,6 +130,11 @@ class Summaries:
         self.prog = prog
         self.optable = operator_table(prog)
         self.clone_table = clone_copy_table(prog)
+        for k in list(self.clone_table):
+            if _reflective_chain(prog, k):
+                # the chain copies attributes through vars() / setattr() / copy: what arrives on the clone is read off the
+                # interpreted clone() of that class (C13.R2 judges the same interpretation)
+                self.clone_table[k] = self.clone_table[k] | _semantic_copied(prog, k)
 
     def hooks(self) -> Dict[str, Any]:
         h: Dict[str, Any] = {}
